@@ -20,8 +20,9 @@ RULE = ("1-3 baths x 1-3 stretches (5-40 points each) in shuffled dictionary ord
 ASSUMPTIONS = ["Powell / LSQR converge (observed); estimates judged within 6 sigma of the chi-square law of the residual variance"]
 
 
-def layout(rng, big=False):
-    ns = rng.randint(1, 4)
+def layout(rng, big=False, multi=False):
+    """multi: at least one bath with two stretches (each stretch has its own time series in the planted data)"""
+    ns = rng.randint(3, 4) if multi else rng.randint(1, 4)
     lens = [rng.randint(5, 12 if not big else 40) for _ in range(ns)]
     gaps = [rng.randint(1, 3) for _ in range(ns + 1)]
     nx = sum(lens) + sum(gaps)
@@ -32,7 +33,7 @@ def layout(rng, big=False):
         i += ln + gaps[k + 1]
     order = list(range(ns))
     rng.shuffle(order)
-    nb = rng.randint(1, min(3, ns))
+    nb = rng.randint(1, min(2 if multi else 3, ns))
     d = [("bath%d" % b, []) for b in range(nb)]
     for n_, k in enumerate(order):
         i0, i1 = blocks[k]
@@ -144,9 +145,9 @@ def sample_var_case(ctx, rng):
     ctx.count("sampleVar")
 
 
-def planted_case(ctx, rng, estimator, noise):
+def planted_case(ctx, rng, estimator, noise, multi=False):
     from dtscalibration.variance_stokes import variance_stokes_constant, variance_stokes_exponential
-    x, d, blocks = layout(rng)
+    x, d, blocks = layout(rng, multi=multi)
     nt = rng.randint(6, 30)
     nx = len(x)
     r = np.random.default_rng(rng.randrange(2**31))
@@ -228,6 +229,10 @@ def run(ctx):
         sample_var_case(ctx, rng)
     for k in range(10 if ctx.quick else 100):
         planted_case(ctx, rng, "constant" if k % 2 == 0 else "exponential", [0.0, 0.005, 0.02, 0.05][k % 4] if k % 4 else 0.0)
+    # always present: a bath with several stretches (each with its own time series / decay), noise-free and noisy, both estimators
+    for estimator in ("constant", "exponential"):
+        for noise in (0.0, 0.02):
+            planted_case(ctx, rng, estimator, noise, multi=True)
     for _ in range(2 if ctx.quick else 20):
         linear_case(ctx, rng)
 
